@@ -72,10 +72,16 @@ claim("C01",
       "faults, retry rewrites, every Quirks, every well-formed initial store): the applied writes of each key form one chain in which every update/"
       "guarded delete named exactly its predecessor's revision and every create found the key absent or deleted (`chain`); two writers conditioned on "
       "the same revision never both succeed; a step that applies nothing leaves the store unchanged; the index record always equals the last applied "
-      "write; a CAS conflict means the index really differed at that step. Correspondence: gated schedules on three engines incl. ALL interleavings of "
-      "two clients for 21 request-shape pairs; chain oracle on the implementation's responses.",
+      "write; a CAS conflict means the index really differed at that step. KB.Props.C01Repair (creator since eb6d1d1, its bounded re-evaluation "
+      "loop a step per storage call): a create is answered 'condition failed' only if at some moment of the log between its begin and its answer the "
+      "key's revision record was live or a deletion at/above the create's revision, or after 4 failed compare-and-swaps with >= 4 writes to the key "
+      "meanwhile (`create_cf_justified_under_repair`, `create_cf_names_the_interferer`); the auditor's schedule ends `ok` (decided), the pre-fix creator "
+      "is refuted on it (decided). Correspondence: gated schedules on three engines incl. ALL interleavings of "
+      "two clients for 21 request-shape pairs; chain oracle on the implementation's responses; a parked create stepped against the stepped repair "
+      "of an uncertain delete (pseudo client R), repair dealt before / after the create, random placements.",
       TB + "Each engine serialises overlapping transactions on one index key (memkv mutex, badger SSI, tikv optimistic conflicts): the gated harness applies "
-      "batches atomically at their release point. `cond_failed_justified` is proved in its local form (the failing commit step is the moment).",
+      "batches atomically at their release point. `cond_failed_justified` is proved for creates over the whole request (C01Repair, KB.Sys has no compaction "
+      "action: that race is C07Race's) and in its local form for guarded updates / deletes (the failing commit step is the moment).",
       "Lean 4 proof (inductive store/log invariant over all schedules) + scheduled differential correspondence", "DESIGN.md §5 C01")
 claim("C02",
       "Lean theorems KB.Props.C02 / C02Store over KB.Sys: dealt revisions are unique; a request that returned before another began has the smaller "
